@@ -119,7 +119,7 @@ type c12packet struct {
 func c12genPacket(rng *core.Rng, tag string) c12packet {
 	p := c12packet{}
 	if rng.Intn(10) != 0 {
-		p.Pairs = append(p.Pairs, [2]string{"user", core.Pick(rng, []string{"u" + tag, "", "postgres", "ü" + tag, strings.Repeat("n", 300)})})
+		p.Pairs = append(p.Pairs, [2]string{"user", core.Pick(rng, []string{"u" + tag, "", "postgres", "ü" + tag, strings.Repeat("n", 300), rng.Ident(rng.BoundaryLen())})})
 	}
 	for n := rng.Intn(core.Pick(rng, []int{1, 4, 10, 50})); n > 0; n-- {
 		k := core.Pick(rng, []string{"database", "application_name", "client_encoding", "options", "user", "DateStyle", rng.Ident(1 + rng.Intn(10)), "ключ" + rng.Ident(2)})
